@@ -127,10 +127,15 @@ def write_mhtml(doc: dict, encoding: str = "quoted-printable") -> bytes:
     import base64
     import quopri
     html = write_html(doc)
+    # the transfer encoding and the spelling of its name (the value is case-insensitive, RFC 2045) vary with the document
+    pick = len(html) % 6
+    if encoding == "quoted-printable" and pick in (1, 4):
+        encoding = "base64"
     if encoding == "base64":
         payload = base64.encodebytes(html)
     else:
         payload = quopri.encodestring(html)
+    encoding = {0: encoding, 1: encoding, 2: "Quoted-Printable", 3: "QUOTED-PRINTABLE", 4: "BASE64", 5: encoding}[pick]
     b = "----=_NextPart_000_0000"
     return (b"From: <Saved by test>\r\nSubject: page\r\nMIME-Version: 1.0\r\n"
             b'Content-Type: multipart/related; type="text/html"; boundary="' + b.encode() + b'"\r\n\r\n'
